@@ -1,19 +1,19 @@
 /-
   C08 witnesses: concrete inputs on which the repository code provably differs from the MuJoCo C
   specification of `Spec/Integrate.lean` (each reproduced on the real code, see the docstrings).
+  Only defects that are STILL present are listed (ids are stable, hence the gap).
 
   W1  zero quaternion in qpos: `_next_position` writes (0,0,0,1), `mj_integratePos` writes (1,0,0,0).
-  W2  RK4 stage, FILTEREXACT actuator: `_next_activation(scale = 1/2, limit = False)` writes
-      `act + ½·act_dot·τ(1 − e^{−dt/τ})`, MuJoCo C's stage state is `act + dt·½·act_dot`.
-      (mj_step vs mjw.step, one RK4 step, hinge + `general dyntype=filterexact dynprm=0.005`, dt = 0.01,
-       ctrl = 1: act 0.28822 (C) vs 0.57530 (mjw); qvel 1.927 vs 0.694.)
-  W3  RK4 stage, DCMOTOR actuator: `_next_activation` ignores `act_dot_scale`: writes `act + act_dot·dt`
-      instead of `act + dt·½·act_dot`.
-      (hinge + `dcmotor thermal="10 0.01 0 0 25 25"`, RK4, dt = 0.01, ctrl = 10: act 47.476 (C) vs 45.972 (mjw).)
   W4  RK4 stage time: the host loop never advances `d.time`; with a `forward` that reads the time the
       accumulated acceleration differs from `Σ B_i k_i`.
       (hinge + `motor delay="0.025" nsample="4" interp="linear"`, RK4, ctrl = k² at step k: qvel after 4
        steps 1.587 (C) vs 0.176 (mjw).)
+
+  Deleted (no longer theorems about the code): W2 `rk_stage_filterexact_witness` and W3
+  `rk_stage_dcmotor_witness` described `_rk_perturb_state` launching `_next_activation(scale = A_i,
+  limit = False)` for the stage activations.  Fix a57be8a ("fix: RK4 intermediate stages advanced activations
+  with the exact filter/motor integrators") launches `_next_velocity` there; the property is now PROVED
+  for every dynamics type (`C08.rk_stage_activation_eq`, `C08.rk_perturb_launches`, `C08.rk4_act_writers`).
 -/
 import MjwVerif.Props.C08
 
@@ -61,57 +61,10 @@ theorem next_position_zero_quat_witness :
   rw [hk, hs]
   simp [cellsAt]
 
-/-! ## W2: RK4 stage of a FILTEREXACT actuator -/
-
-/-- **W2**: one FILTEREXACT actuator (type 3, τ = dynprm[0] = 1) with one activation variable at address 0,
-    `act = 0`, `act_dot = 1`, timestep 1, launched as `_rk_perturb_state` does for the first stage
-    (`act_dot_scale = 1/2`, `limit = False`): the kernel stores `½(1 − e⁻¹)` (≈ 0.316) where the classical
-    stage state `X0.act + h·a·F.actdot` (`Spec.rkStage`) is `½`. -/
-theorem rk_stage_filterexact_witness :
-    let prm : V10 ℝ := ⟨1, 0, 0, 0, 0, 0, 0, 0, 0, 0⟩
-    let v : ℝ := 1 / 2 * (1 - Real.exp (-1))
-    Gen.Forward._next_activation (fun _ => (1:ℝ)) (fun _ => 3) (fun _ => 0) (fun _ => 1) (fun _ _ => prm)
-        (fun _ _ => V10.zero) (fun _ _ => V10.zero) (fun _ => false) (fun _ _ => ⟨0, 0⟩) (fun _ _ => 0) (fun _ _ => 1)
-        (fun _ _ => 0) (1 / 2) false (fun _ _ => 0) 1 1 1 1 1 0 0
-      = [Write.mk "act_out" [0, 0] (WVal.f v) WKind.set]
-    ∧ v ≠ (rkStage (K := ℝ) ⟨fun q _ _ => q, fun _ a _ _ => a⟩ 1 ⟨fun _ => 0, fun _ => 0, fun _ => 0, 0⟩ (1 / 2) (1 / 2)
-            ⟨fun _ => 0, fun _ => 0, fun _ => 1⟩).act 0 := by
-  intro prm v
-  constructor
-  · rw [next_activation_spec _ _ _ _ _ _ _ _ _ _ _ _ _ _ _ _ _ _ _ _ _ _ (by decide)]
-    simp only [rangeL, Int.zero_add, Int.sub_zero, Int.toNat_one, List.range_one, List.map_cons, List.map_nil,
-      Int.ofNat_eq_natCast, Int.natCast_zero]
-    simp only [Gen.Support.next_act, decide_true, if_true, Bool.false_and, Bool.false_eq_true, if_false, hadd, hmul,
-      hsub, hdiv, hneg, sexp, smax, slit, prm, v]
-    norm_num
-  · simp only [rkStage, hadd, hmul, v]
-    have := Real.exp_pos (-1)
-    intro h; nlinarith
-
-/-! ## W3: RK4 stage of a DCMOTOR actuator -/
-
-/-- **W3**: one DCMOTOR actuator (type 5) whose only state is the slew-rate slot (dynprm[7] = 1 > 0, all
-    other parameters 0), one activation variable at address 0, `act = 0`, `act_dot = 1`, timestep 1,
-    launched with `act_dot_scale = 1/2`, `limit = False`: the kernel stores `1 = act + act_dot·dt` — the
-    full step — where the classical stage state is `½`. -/
-theorem rk_stage_dcmotor_witness :
-    let prm : V10 ℝ := ⟨0, 0, 0, 0, 0, 0, 0, 1, 0, 0⟩
-    Gen.Forward._next_activation (fun _ => (1:ℝ)) (fun _ => 5) (fun _ => 0) (fun _ => 1) (fun _ _ => prm)
-        (fun _ _ => V10.zero) (fun _ _ => V10.zero) (fun _ => false) (fun _ _ => ⟨0, 0⟩) (fun _ _ => 0) (fun _ _ => 1)
-        (fun _ _ => 0) (1 / 2) false (fun _ _ => 0) 1 1 1 1 1 0 0
-      = [Write.mk "act_out" [0, 0] (WVal.f 1) WKind.set]
-    ∧ (1:ℝ) ≠ (rkStage (K := ℝ) ⟨fun q _ _ => q, fun _ a _ _ => a⟩ 1 ⟨fun _ => 0, fun _ => 0, fun _ => 0, 0⟩ (1 / 2) (1 / 2)
-            ⟨fun _ => 0, fun _ => 0, fun _ => 1⟩).act 0 := by
-  intro prm
-  constructor
-  · unfold Gen.Forward._next_activation
-    simp [Gen.Util_misc.dcmotor_slots, forRange, Write.lookupF, V10.zero, V10.fill, prm]
-  · simp only [rkStage, hadd, hmul]; norm_num
-
 /-! ## W4: stage time -/
 
 /-- **W4**: `intPos q v h = q + h v`, kernels as proved, and a `forward` whose acceleration is the current
-    time.  All hypotheses of `rk4_eq_tableau` except `htime` hold; the host loop accumulates
+    time.  All hypotheses of `rk4_eq_tableau` (`RkHyps`: `hpos`, `hvel`, `hvelF`, `hinit`) except `htime` hold; the host loop accumulates
     `qacc_rk = 0`, the classical scheme (stages at `t + c_i h`) gives `½`. -/
 theorem rk_time_witness :
     let P : Prims ℝ := ⟨fun q v h i => q i + h * v i, fun _ act ad h i => act i + h * ad i⟩
